@@ -26,5 +26,4 @@ INVARIANT C23_NoCleanupOnClose
 INVARIANT C24_OffsetFromInitial
 INVARIANT C24_ResetToInitial
 INVARIANT C24_NoResetOnClose
-INVARIANT LedgerMatches
 POSTCONDITION TraceAccepted
